@@ -3,6 +3,7 @@ CONSTANTS
   Bases = {"OCT", "STRIP8", "TET"}
   CellSets <- CellsQuick
   Actions <- ActionsQuick
+  MaxDepth = 1
   EmitJson = TRUE
 INVARIANT MapsConsistent
 INVARIANT GeometryFollows
